@@ -167,4 +167,88 @@ Section Honest.
     rewrite Hke3. cbn [bind].
     do 3 eexists. split; [reflexivity|]. split; [exact Hfin|]. split; reflexivity.
   Qed.
+
+  (* the same with every party on its OWN tape (the statement above threads one tape through all steps, which is how
+     the in-memory flow of the correspondence check runs; nothing in the proof uses the threading) *)
+  Theorem honest_login_agrees_any_tapes
+          tape setup t1 tr pw creg rq t2 cred rr tf ids ksf upload ek spk t3 tc clog ke1 t4 tv ctx slog ke2 t5 dbg :
+    ve CS (o_h2g (oprf CS) pw (dst_hash_to_group (oprf CS))) ->          (* hash-to-group did not hit the identity *)
+    server_setup_new CS tape = Ok (setup, t1) ->
+    client_registration_start CS tr pw = Ok (creg, rq, t2) ->
+    server_registration_start CS setup rq cred = Ok rr ->
+    client_registration_finish CS creg tf pw rr ids ksf = Ok (upload, ek, spk, t3) ->
+    client_login_start CS tc pw = Ok (clog, ke1, t4) ->
+    server_login_start CS (private_key_ops (ke CS)) tv setup (Some (server_registration_finish upload)) ke1 cred ctx ids
+      = Ok (slog, ke2, t5, dbg) ->
+    o_eqb (oprf CS) (cq_blinded ke1) (cr_eval ke2) = false ->           (* the evaluation is not the reflected request *)
+    exists ke3 sk dbg',
+      client_login_finish CS clog pw ke2 ctx ids ksf = Ok (ke3, sk, ek, spk, dbg') /\
+      server_login_finish CS slog ke3 = Ok sk /\
+      spk = kp_pk (ss_keypair setup) /\ kp_pk (ss_keypair setup) = k_pub (ke CS) (kp_sk (ss_keypair setup)).
+  Proof.
+    intros HP Hsetup Hrs Hsr Hrf Hls Hss Hnr.
+    set (P := o_h2g (oprf CS) pw (dst_hash_to_group (oprf CS))) in *.
+    (* setup *)
+    unfold server_setup_new in Hsetup.
+    apply bind_Ok in Hsetup as ([skp ta] & Hskp & Hsetup).
+    destruct (length ta <? h_len (hash CS)); [discriminate|].
+    apply bind_Ok in Hsetup as ([fkp tb] & Hfkp & Hsetup). injection Hsetup as <- <-.
+    apply keypair_generate_random_inv in Hskp as [Hssv Hspk].
+    destruct skp as [spk0 ss]. cbn [kp_pk kp_sk] in *. subst spk0.
+    (* registration start *)
+    unfold client_registration_start in Hrs.
+    apply bind_Ok in Hrs as ([[r b] t2'] & Hb & Hrs). injection Hrs as <- <- <-.
+    apply blind_inv in Hb as [Hr ->]. fold P in Hsr, Hrf |- *.
+    (* server registration start *)
+    unfold server_registration_start in Hsr. cbn [ss_oprf_seed ss_keypair rq_blinded] in Hsr.
+    apply bind_Ok in Hsr as (ev & Hev & Hsr). injection Hsr as <-.
+    apply server_evaluate_inv in Hev as (k & Hk & -> & Hkv).
+    (* registration finish *)
+    unfold client_registration_finish in Hrf. cbn [crs_blinded crs_blind rr_eval rr_server_s_pk] in Hrf.
+    destruct (o_eqb (oprf CS) (o_mul (oprf CS) P r) (o_mul (oprf CS) (o_mul (oprf CS) P r) k)); [discriminate|].
+    apply bind_Ok in Hrf as (rp & Hrp & Hrf).
+    apply bind_Ok in Hrf as (mk & Hmk & Hrf).
+    apply bind_Ok in Hrf as ([[[env cpk] ek'] t3'] & Hseal & Hrf). injection Hrf as <- <- <- <-.
+    apply of_option_Ok in Hmk.
+    pose proof (hkdf_expand_length _ HL _ _ _ _ Hmk) as Hmkl.
+    destruct (envelope_open_seal CS HL _ _ _ _ _ _ _ _ Hseal) as (ckp & u & s & Hopen & Hcpk & Hids & Henvwf & _ & _).
+    (* login start *)
+    unfold client_login_start in Hls.
+    apply bind_Ok in Hls as ([[r' b'] t3a] & Hb' & Hls).
+    apply bind_Ok in Hls as ([[k1st k1m] t3b] & Hke1 & Hls). injection Hls as <- <- <-.
+    apply blind_inv in Hb' as [Hr' ->]. fold P in Hss, Hnr |- *.
+    unfold generate_ke1 in Hke1.
+    apply bind_Ok in Hke1 as ([ekp t3c] & Hekp & Hke1).
+    apply bind_Ok in Hke1 as ([cnonce t3d] & Hcn & Hke1). injection Hke1 as <- <- <-.
+    apply keypair_generate_random_inv in Hekp as [Hcev Hcepk].
+    destruct ekp as [cepk ce]. cbn [kp_pk kp_sk] in *. subst cepk.
+    (* server login start *)
+    unfold server_login_start, server_registration_finish in Hss.
+    cbn [bind ru_client_s_pk ru_masking_key ru_envelope ss_keypair ss_oprf_seed kp_sk private_key_ops s_pub cq_blinded cq_ke1] in Hss.
+    destruct (length _ <? KE_NONCE_LEN); [discriminate|].
+    apply bind_Ok in Hss as (masked & Hmask & Hss).
+    apply bind_Ok in Hss as ([u' s'] & Hids' & Hss).
+    apply bind_Ok in Hss as (ev' & Hev' & Hss).
+    apply bind_Ok in Hss as ([[[st ke2m] t5'] dbg0] & Hke2 & Hss). injection Hss as <- <- <- <-.
+    apply server_evaluate_inv in Hev' as (k' & Hk' & -> & _).
+    rewrite Hk in Hk'. injection Hk' as <-.
+    rewrite Hids in Hids'. injection Hids' as <- <-.
+    (* the client's final step *)
+    subst P.
+    cbn [cr_eval cq_blinded] in Hnr.
+    unfold client_login_finish.
+    cbn [cl_request cl_blind cl_ke1_state cq_blinded cq_ke1 cr_eval cr_masking_nonce cr_masked cr_ke2].
+    rewrite Hnr.
+    rewrite (rpwd_unblinded pw r k ksf rp HP Hr Hkv Hrp r' Hr'). cbn [bind].
+    rewrite Hmk. cbn [of_option bind].
+    pose proof (g_pub_valid CS GL _ Hssv) as Hspkv.
+    rewrite (unmask_mask CS HL _ _ _ _ _ Hspkv Henvwf Hmask). cbn [map_err bind].
+    rewrite Hopen. cbn [map_err bind].
+    apply recover_keys_inv_open in Hopen as [Hcsv Hcspk].
+    destruct ckp as [cpk0 cs]. cbn [kp_pk kp_sk] in *. subst cpk0. subst cpk.
+    destruct (ke_agreement CS GL _ _ _ _ _ _ _ _ _ _ _ _ _ _ Hcev Hcsv Hssv Hke2) as (dbg' & Hke3 & Hfin).
+    cbn [k1s_client_e_sk k1s_nonce] in *.
+    rewrite Hke3. cbn [bind].
+    do 3 eexists. split; [reflexivity|]. split; [exact Hfin|]. split; reflexivity.
+  Qed.
 End Honest.
